@@ -236,3 +236,42 @@ func fnOf(c *core.Ctx, rule, pkg, typ, name string) *ssa.Function {
 	}
 	return fn
 }
+
+// returnAvoiding searches a path from block `from` to a Return that never enters a block for which
+// stop(b) holds; it returns the offending Return (nil if every path is stopped). Blocks ending in a
+// panic are not exits.
+func returnAvoiding(from *ssa.BasicBlock, stop func(*ssa.BasicBlock) bool) *ssa.Return {
+	seen := map[*ssa.BasicBlock]bool{}
+	stack := []*ssa.BasicBlock{from}
+	for len(stack) > 0 {
+		b := stack[len(stack)-1]
+		stack = stack[:len(stack)-1]
+		if seen[b] || stop(b) {
+			continue
+		}
+		seen[b] = true
+		if r, ok := b.Instrs[len(b.Instrs)-1].(*ssa.Return); ok {
+			return r
+		}
+		stack = append(stack, b.Succs...)
+	}
+	return nil
+}
+
+// blockHas reports whether b contains instruction in.
+func blockHas(b *ssa.BasicBlock, in ssa.Instruction) bool {
+	return in != nil && in.Block() == b
+}
+
+// dominatesReturns: `in` dominates every Return of its function.
+func dominatesReturns(in ssa.Instruction) (bool, token.Pos) {
+	fn := in.Parent()
+	for _, b := range fn.Blocks {
+		if r, ok := b.Instrs[len(b.Instrs)-1].(*ssa.Return); ok {
+			if !core.InstrDominates(in, r) {
+				return false, r.Pos()
+			}
+		}
+	}
+	return true, token.NoPos
+}
